@@ -302,7 +302,7 @@ pub fn run_case(id: &str, case: &Value) -> Value {
             "arp" => {
                 let s = ArpPacketSlice::from_slice(&b);
                 match s {
-                    Err(e) => json!({"ev": "arp", "id": id, "bytes": b, "ok": 0, "req": e.required_len, "view": "", "f": [], "back": -1}),
+                    Err(e) => json!({"ev": "arp", "id": id, "bytes": b, "ok": 0, "req": e.required_len, "view": "", "f": [], "back": -1, "srg": [-1, -1]}),
                     Ok(s) => {
                         let p = s.to_packet();
                         match p.try_eth_ipv4() {
@@ -316,12 +316,12 @@ pub fn run_case(id: &str, case: &Value) -> Value {
                                 let back = ArpPacket::from(v.clone()) == p && v.to_arp_packet() == p
                                     && v.to_bytes()[..] == b[..ArpEthIpv4Packet::LEN] && v.sender_ipv4_addr().octets() == v.sender_ipv4 && v.target_ipv4_addr().octets() == v.target_ipv4
                                     && ArpEthIpv4Packet::try_from(p.clone()) == Ok(v.clone());
-                                json!({"ev": "arp", "id": id, "bytes": b, "ok": 1, "req": -1, "view": "ok", "f": f, "back": if back { 1 } else { 0 }})
+                                json!({"ev": "arp", "id": id, "bytes": b, "ok": 1, "req": -1, "view": "ok", "f": f, "back": if back { 1 } else { 0 }, "srg": rg(&c, s.slice())})
                             }
                             Err(e) => {
                                 let _ = format!("{} {:?}", e, e);
                                 let same = ArpEthIpv4Packet::try_from(p.clone()) == Err(e.clone());
-                                json!({"ev": "arp", "id": id, "bytes": b, "ok": 1, "req": -1, "view": if same { n_arpview(&e) } else { "TryFromDiffers" }, "f": [], "back": -1})
+                                json!({"ev": "arp", "id": id, "bytes": b, "ok": 1, "req": -1, "view": if same { n_arpview(&e) } else { "TryFromDiffers" }, "f": [], "back": -1, "srg": rg(&c, s.slice())})
                             }
                         }
                     }
